@@ -446,7 +446,9 @@ def run_cont(res, unit):
         """Affine proposal map at x: m, A with x' = m + A z; verified on an extra z."""
         m, a0, mv = probe(x, np.zeros(t.d), 1e-12)
         if not mv:
-            raise RuntimeError("proposal at z=0 was not accepted with u=1e-12 (alpha == 0?)")
+            # e.g. IWLS where the information is not positive definite: liesel reports code 90 and
+            # rejects, the proposal law cannot be observed at this point
+            return None, None
         A = np.zeros((t.d, t.d))
         for i in range(t.d):
             e = np.zeros(t.d)
@@ -466,8 +468,13 @@ def run_cont(res, unit):
     zmenu = [np.array([0.9, -0.4, 0.3][: t.d]), np.array([-1.1, 0.6, -0.2][: t.d])]
     if not quick:
         zmenu += [np.array([0.2, 1.5, -0.8][: t.d]), np.array([-0.3, -0.2, 2.0][: t.d])]
+    usable = 0
     for x in pts:
         m, A = law(x)
+        if m is None:
+            res.outcome("cont", kern, tuple(unit["keys"]), "law-unobservable")
+            continue
+        usable += 1
         logdetA = math.log(abs(np.linalg.det(A)))
         for z in zmenu:
             xp = m + A @ z
@@ -481,6 +488,9 @@ def run_cont(res, unit):
                 res.violation("cont", f"forward-proposal-{kern}", case, f"forward move not reproduced ({case})")
                 continue
             m2, A2 = law(xp)
+            if m2 is None:
+                res.outcome("cont", kern, tuple(unit["keys"]), "law-unobservable-at-proposal")
+                continue
             zr = np.linalg.solve(A2, x - m2)
             x_back, a_r, mv_r = probe(xp, zr, 1e-12)
             if not mv_r and a_r <= 1e-11:
@@ -509,6 +519,8 @@ def run_cont(res, unit):
                 if not mv_any:
                     res.violation("cont", f"acts-differently-{kern}", case, f"{kern}: alpha=1 but proposal rejected at u=1-1e-7")
         res.states += 1
+    if usable * 2 < len(pts):
+        raise RuntimeError(f"proposal law observable at only {usable} of {len(pts)} lattice points: vacuous")
     res.executions += n_exec[0]
     res.sample({"unit": unit, "lattice": [np.round(p, 4).tolist() for p in pts], "transitions_run": n_exec[0]})
     res.note([unit, n_exec[0], sorted(res.outcomes)])
